@@ -24,6 +24,7 @@ package main
 import (
 	"crypto/sha256"
 	"fmt"
+	"math"
 	"sort"
 	"strings"
 	"sync"
@@ -38,10 +39,10 @@ import (
 )
 
 const (
-	H0   = 18823000 + 7 // poly height of every tx: above the HSC/Harmony/Bytom router start height on main net
-	S1   = 31
-	S2   = 32
-	DST  = 40
+	H0   = 18823000 + 7           // poly height of every tx: above the HSC/Harmony/Bytom router start height on main net
+	S1   = uint64(0)              // chain id 0 is registrable; its records hold the value 0 ("absent" for careless readers)
+	S2   = uint64(math.MaxUint64) // 9-byte var-uint
+	DST  = uint64(1)
 	nVal = 4
 )
 
@@ -104,14 +105,17 @@ func main() {
 		// (chain,id) pairs: S1/x, S1/y, S2/x (same id on two chains, two ids on one chain); the second relayer
 		// (other voters / other account) only for the variants where it yields a different transaction set of
 		// the same message (same, height, altproof).
-		for _, ci := range [][2]int{{S1, 0}, {S1, 1}, {S2, 0}} {
+		for _, ci := range []struct {
+			c uint64
+			i int
+		}{{S1, 0}, {S1, 1}, {S2, 0}} {
 			for _, v := range a.Variants() {
 				nrel := 2
 				if v == ccm.VAltMsg || v == ccm.VBad {
 					nrel = 1
 				}
 				for rel := 0; rel < nrel; rel++ {
-					events = append(events, fmt.Sprintf("%d/%d/%s/%d", ci[0], ci[1], v, rel))
+					events = append(events, fmt.Sprintf("%d/%d/%s/%d", ci.c, ci.i, v, rel))
 				}
 			}
 		}
@@ -253,7 +257,7 @@ func main() {
 	r.Finish(map[string]any{
 		"rule":   "accepted ⇔ valid ∧ (chain,id) ∉ done; accept marks exactly doneTx/(chain,id); non-accepted deciding tx leaves the dump unchanged",
 		"states": total.States, "transitions": total.Transitions, "traces_validated_against_impl": total.Transitions, "max_depth": depth,
-		"network": "main net (NETWORK_ID_MAIN_NET), poly height 18823007, 4 validators",
+		"network": "main net (NETWORK_ID_MAIN_NET), poly height 18823007, 4 validators", "chain_ids": "sources 0 and MaxUint64, destination 1",
 	})
 }
 
